@@ -205,6 +205,11 @@ def read_keys(fn):
                 if isinstance(p, ast.If) and any(isinstance(x, ast.Compare) and isinstance(x.ops[0], ast.In) and isinstance(x.left, ast.Constant)
                                                  and x.left.value == path[-1] for x in ast.walk(p.test)):
                     guarded = True
+                # ... or inside a try whose KeyError handler swallows the error (the key is simply skipped when absent)
+                if isinstance(p, ast.Try) and any(n is y for b_ in p.body for y in ast.walk(b_)) and p.handlers and all(
+                        (h.type is None or any(isinstance(t_, ast.Name) and t_.id in ('KeyError', 'LookupError', 'Exception') for t_ in ast.walk(h.type)))
+                        and not any(isinstance(z, ast.Raise) for s_ in h.body for z in ast.walk(s_)) for h in p.handlers):
+                    guarded = True
             st = n
             while st is not None and not isinstance(st, ast.stmt):
                 st = getattr(st, '_sa_parent', None)
